@@ -133,6 +133,8 @@ def r03_13(ctx):
 
 
 def run(ctx):
+    ctx.rule("R03.15", "end() runs the state machine over the queue, unconditionally, after setting the end-of-input flag and before eof_step: a look-ahead stash parked by eat() at the very end of the input is re-joined")
+    ctx.guard("R03.15", "end-runs/html", lambda: tr.end_runs_before_eof(ctx, "R03.15", "html"))
     ctx.rule("R03.14", "run() passes every answer of step() on unchanged (a pause is never reported as Done), in the profiling loop too")
     for _w in ("html", "xml"):
         ctx.guard("R03.14", "run/" + _w, lambda _w=_w: tr.run_maps_step_results(ctx, "R03.14", _w))
